@@ -77,16 +77,16 @@ def configs(n, C, lay):
     out = []
     for cpg in [d for d in range(1, C + 1) if C % d == 0]:
         for shuffle in (False, True):
-            for seed in (0, 1):
+            for seed in (0, 1, None):
                 out.append(("ClassGroupsWrapper", dict(classes_per_group=cpg, shuffle=shuffle, seed=seed), True))
     for cps in sorted({1, 2, C}):
         for splits in (1, 2, 3):
             for shuffle in (False, True):
-                for seed in (0, 1):
+                for seed in (0, 1, None):
                     out.append(("RandomSuperclassWrapper", dict(classes_per_superclass=cps, superclass_splits=splits,
                                                                 shuffle=shuffle, seed=seed), True))
     for p_ in (0.0, 0.5, 1.0):
-        for seed in (0, 1):
+        for seed in (0, 1, None):
             out.append(("SwapLabelWrapper", dict(p=p_, seed=seed), True))
     out.append(("OverwriteClassesWrapper", dict(classes=list(reversed(lay))), True))
     out.append(("OverwriteClassesWrapper", dict(classes=torch.tensor(list(reversed(lay)))), True))
@@ -120,7 +120,7 @@ def configs(n, C, lay):
                 if mk is None:
                     out.append(("KDRandomClassWrapper", dict(mode=mode, mode_kwargs=mk, num_classes=nc, seed=seed, _via_setters=True), True))
     for sp in (0.0, 0.5, 1.0):
-        for seed in (0, 1):
+        for seed in (0, 1, None):
             out.append(("SemiWrapper", dict(semi_percent=sp, seed=seed), True))
     for sm in (0, 0.0, 0.1, 0.5, 1.0):
         out.append(("LabelSmoothingWrapper", dict(smoothing=sm), True))
